@@ -479,7 +479,7 @@ def compare_model(case, impl_toks, model_toks):
 
 # ---------------------------------------------------------------- exhaustive small scope (thorough)
 def exhaustive_cases(sip_key):
-    """every program of length <= 4 over {F,E,N,V,S:k1,S:k2} on a few small tables, all small options"""
+    """every program of length <= 5 over {F,E,N,V,S:k1,S:k2} on a few small tables, three option sets"""
     import itertools
     tables = [
         [],
@@ -490,7 +490,7 @@ def exhaustive_cases(sip_key):
     out = []
     for es in tables:
         ops = [("F",), ("E",), ("N",), ("V",), ("S", b"a"), ("S", b"\x00\x01")]
-        for n in range(1, 5):
+        for n in range(1, 6):
             for prog in itertools.product(ops, repeat=n):
                 for head in ["B 1 1", "B 1024 16", "S 1 2 1 17"]:
                     line = "%s | %s | %s" % (head, " ".join(fmt_entry(e) for e in es), fmt_prog(prog))
@@ -612,7 +612,7 @@ def run(chk):
             "least_keyref_first", "perturb_dup", "perturb_swap", "perturb_bigkey", "perturb_bigval", "perturb_ts",
             "op_N", "op_V", "op_S", "op_F", "op_E", "op_G"]
     stats = {k: 0 for k in keys}
-    n = 2500 if chk.tier == "quick" else 100000
+    n = 2500 if chk.tier == "quick" else 300000
     cases = load_corpus(sip_key)
     ncorpus = len(cases)
     exhaustive = 0
